@@ -106,6 +106,11 @@ class Runner:
         self.cb0 = SpyCallback(alpha=jnp.array(0.9))
         self._reset = eqx.filter_jit(lambda algo, env, policy, key, cb: algo.reset(env, policy, key=key, callback=cb))
         self._iter = eqx.filter_jit(lambda algo, state, key, cb: algo.iteration(state, key=key, callback=cb))
+        # the same vmapped call `iteration` performs, and the single-environment call (C12)
+        self._vcollect = eqx.filter_jit(
+            lambda algo, env, policy, ss, cb, keys: eqx.filter_vmap(algo.collect_rollout, in_axes=(None, None, eqx.if_array(0), None, 0))(env, policy, ss, cb, keys)
+        )
+        self._scollect = eqx.filter_jit(lambda algo, env, policy, ss, cb, key: algo.collect_rollout(env, policy, ss, cb, key))
 
     # ------------------------------------------------------------------ plans
 
@@ -148,6 +153,8 @@ class Runner:
             "ops": [{"op": "reset", "key": rng.getrandbits(31)}] + [{"op": "iter", "key": rng.getrandbits(31)} for _ in range(n_iter)],
             "faults": [],
         }
+        if cls["n"] > 1 and prop == "C12":
+            plan["slice_key"] = rng.getrandbits(31)
         if cls["n"] > 1 and (prop == "C12" or rng.random() < 0.15):
             plan["faults"].append(
                 {
@@ -264,6 +271,8 @@ class Runner:
                     tr.ev("node_start", node=i, s=node.cur_s)
                 if int(state.iteration_count) != 0:
                     res.fail("C10", "iteration_counter", "not_zero_after_reset")
+                if "C12" in props and n > 1 and plan.get("slice_key") is not None:
+                    self._slice_check(res, algo, env, policy, state.step_state, cb, plan["slice_key"])
                 continue
             # ---- iteration
             tr.ev("op", op="iter", key=op["key"], index=oi)
@@ -331,6 +340,26 @@ class Runner:
             v = variant(fn)
             if v is not None:
                 yield v
+
+    def _slice_check(self, res, algo, env, policy, step_state, cb, key_int):
+        """N parallel collections == N independent single collections from the same keys/states."""
+        n = self.cls["n"]
+        keys = jr.split(jr.key(key_int), n)
+        vm = jax.device_get(self._vcollect(algo, env, policy, step_state, cb, keys))
+        paths = [jax.tree_util.keystr(p) for p, _ in jax.tree_util.tree_leaves_with_path(vm)]
+        for i in range(n):
+            ss_i = jax.tree.map(lambda x: x[i], step_state)
+            single = jax.device_get(self._scollect(algo, env, policy, ss_i, cb, keys[i]))
+            for path, x, y in zip(paths, jax.tree.leaves(vm), jax.tree.leaves(single)):
+                x, y = np.asarray(x)[i], np.asarray(y)
+                if x.shape != y.shape:
+                    res.fail("C12", "node_slice_equals_single", "shape_differs", node=i, leaf=path)
+                    return
+                same = np.allclose(x, y, rtol=1e-6, atol=1e-6, equal_nan=True) if x.dtype.kind == "f" else np.array_equal(x, y)
+                if not same:
+                    res.fail("C12", "node_slice_equals_single", "slice_differs_from_single_collection", node=i, leaf=path, got=x.tolist(), expected=y.tolist())
+                    return
+        res.ok("C12", "node_slice_equals_single", n)
 
     def _perturb_check(self, res, f, algo, state_in, key, cb, state_out):
         j = f["node"]
